@@ -73,10 +73,14 @@ class Canon:
             return ("fn", getattr(o, "__qualname__", "?"), type(owner).__name__ if owner is not None else None, tag)
         if dataclasses.is_dataclass(o) and type(o).__module__.startswith("pyairtouch."):
             # plain protocol data (messages, headers, status records): the dataclass repr is complete
-            if hasattr(o, "expiry"):
+            if hasattr(o, "expiry") and hasattr(o, "retries_remaining"):
                 rq = ("Q", repr(o.header), repr(o.message), o.retries_remaining, self.rel(o.expiry))
                 if " at 0x" not in rq[2]:
                     return rq
+            elif hasattr(o, "expiry"):
+                # a queue entry of another shape (a changed tree): generic walk, time fields relative
+                return ("Q*",) + tuple((f.name, self.rel(getattr(o, f.name)) if f.name in _TIME_ATTRS and isinstance(getattr(o, f.name), (int, float))
+                                        else self.c(getattr(o, f.name), depth + 1)) for f in dataclasses.fields(o))
             else:
                 rd = repr(o)
                 if " at 0x" not in rd:          # a field with a default (address based) repr: walk it instead
